@@ -254,10 +254,19 @@ pub fn run_invocation(sc: &Scenario, case: &mut Case, inv: &Invocation, tag: &st
         });
     }
     // the project directory is spelled differently from one invocation to the next (plain, with
-    // a trailing `/.`, through `<dir>/../<name>`): all of them are the same directory
+    // a trailing `/.`, through `<dir>/../<name>`, through a symbolic link): all of them are the same directory
     let spelled = match (inv.hash_seed % 4, entry_dir.file_name()) {
         (1, _) => entry_dir.join("."),
         (2, Some(name)) => entry_dir.join("..").join(name),
+        // through a symbolic link to the directory (kept with the run files, outside every project)
+        (3, Some(_)) => {
+            let link = run_dir.join(format!("via-{}", tag));
+            let _ = std::fs::remove_file(&link);
+            match std::os::unix::fs::symlink(&entry_dir, &link) {
+                Ok(()) => link,
+                Err(_) => entry_dir.clone(),
+            }
+        }
         _ => entry_dir.clone(),
     };
     let out = cmd
